@@ -3,7 +3,7 @@
   {"t0": int, "budget": {"max":..,"win":..}|null, "breaker": {...}|null,
    "policies": [policy_cfg, ...],
    "calls": [{"policy": idx, "entry": "retry"|"policy"|"retrypolicy"|"retry.ctx"|"policy.ctx"|
-              "retrypolicy.ctx"|"decorator", "async": bool, "mode": "call"|"execute",
+              "retrypolicy.ctx"|"decorator"|"retrycfg"|"retrypolicycfg", "async": bool, "mode": "call"|"execute",
               "cfg": call_cfg, "env": env, "gap": int, "variant": {...}}]}
 
 stdout: JSON list (one per sequence) of lists (one per call) of {"trace": [...], "delivery": [...]}.
@@ -506,6 +506,13 @@ class Shared:
             obj = (AsyncPolicy if is_async else Policy)(retry=r, circuit_breaker=self.breaker if use_breaker else None)
         elif base == "retrypolicy":
             obj = (AsyncRetryPolicy if is_async else RetryPolicy)(**kw)
+        elif base in ("retrycfg", "retrypolicycfg"):
+            # the same policy built through RetryConfig + from_config (every option handed over explicitly, zero and None included)
+            from redress.config import RetryConfig
+            names = {"strategy": "default_strategy", "strategies": "class_strategies"}
+            ckw = {names.get(k, k): v for k, v in kw.items() if k != "classifier"}
+            cls = {"retrycfg": (AsyncRetry if is_async else Retry), "retrypolicycfg": (AsyncRetryPolicy if is_async else RetryPolicy)}[base]
+            obj = cls.from_config(RetryConfig(**ckw), classifier=kw["classifier"])
         elif base == "decorator":
             obj = ("decorator", kw)
         else:
